@@ -6,6 +6,11 @@ import BqVerif.Proofs.StartOnceNet
 import BqVerif.Proofs.IntegrityNet
 import BqVerif.Proofs.RetOnceNet
 import BqVerif.Model.RuntimeWitness
+import BqVerif.Proofs.Wake
+import BqVerif.Proofs.SchedExact
+import BqVerif.Proofs.WakeNet
+import BqVerif.Proofs.WakeNet2
+import BqVerif.Proofs.WorkersInv
 /-!
 # C07 — every awaited runtime future resolves exactly once with its own result
 
@@ -126,15 +131,16 @@ theorem C07_G_token_unique_partial (tbl : Table) (attached : Bool) (nw nc : Nat)
   have h := (GInv.init tbl attached nw nc).exec trs hwf
   exact ⟨h.uniq, h.freshW, h.freshS⟩
 
-/-- non-vacuity: a real run (the leak witness run of C12) satisfies the hypothesis and ends in
-    a state that does hold a token -/
-example : (∀ t ∈ leakRun, t.wf) ∧ Tok ⟨0, 0, 0⟩ ((Net.initFlat leakTable false 1 1).exec leakRun) = 1 := by
+/-- non-vacuity: a real run (the client-cancel run of C12) satisfies the hypothesis and, after
+    its first nine transitions, is in a state that does hold a token (the child task in a
+    SUBMIT_BATCH message on its way to the worker) -/
+example : (∀ t ∈ leakRun, t.wf)
+    ∧ Tok ⟨0, 0, 0⟩ ((Net.initFlat leakTable false 1 1).exec (leakRun.take 9)) = 1 := by
   refine ⟨?_, by decide +kernel⟩
   intro t ht
   simp only [leakRun, List.mem_cons, List.mem_nil_iff, or_false] at ht
   rcases ht with rfl | rfl | rfl | rfl | rfl | rfl | rfl | rfl | rfl | rfl | rfl | rfl | rfl | rfl <;>
     first | trivial | (intro a; rfl)
-
 
 /-- **Every task body is started at most once** (flat topology, all schedules): in the event
     log of any run of the network model - any table, any number of workers and clients, any
@@ -221,6 +227,231 @@ theorem C07_L_await_value (w w' : Worker) (t t' : Task) (v : Val)
 example : ((Net.initFlat driftTable false 1 1).exec driftRun).server.boxes.map (fun p => p.2.result.isSome)
     = [true] := by decide +kernel
 
+
+/-- **Wake discipline, worker level (handlers atomic): the assertions of `_get_desired_result`
+    are unreachable.**  Start from a worker with empty tables and apply any sequence of incoming
+    messages and loop iterations that meets the environment assumptions `Worker.okRun`
+    (`Proofs/Wake.lean`): tasks that arrive (SUBMIT / SUBMIT_BATCH) have not run and carry an
+    address the worker does not know; no result - by message or by a local return - is deposited
+    into a mailbox that is already complete.  Then for the task the next loop iteration picks,
+    `_get_desired_result` either succeeds or raises KeyError because the awaited mailbox was dropped
+    (a cancelled future): `assert box.ready`, `assert box.fresh_results is not None` and the
+    ValueError of `owned_mailboxes.remove` cannot fire.  (Both assumptions are global facts -
+    addresses are unique, every slot is answered once; the line-level race below shows what
+    happens when the handlers are not atomic.) -/
+theorem C07_L_assert_unreachable (tbl : Table) (w0 : Worker) (ops : List WOp)
+    (h1 : w0.tasks = []) (h2 : w0.ready = []) (h3 : w0.boxes = []) (h4 : w0.delayed = [])
+    (hok : Worker.okRun tbl w0 ops) (t0 : Task)
+    (hp : (Worker.pick (ops.foldl (Worker.applyOp tbl) w0).pickFuel
+            { (ops.foldl (Worker.applyOp tbl) w0) with blocked := false }).task = some t0)
+    (cls : Nat)
+    (he : desiredResult (Worker.pick (ops.foldl (Worker.applyOp tbl) w0).pickFuel
+            { (ops.foldl (Worker.applyOp tbl) w0) with blocked := false }).w t0 = .error cls) :
+    cls = eKey :=
+  assert_unreachable _ (run_winv tbl w0 ops (winv_init w0 h1 h2 h3 h4) hok) t0 hp cls he
+
+/-- **No lost wake-up, worker level.**  Under the same assumptions, in every reachable state: a
+    task of the table that is not cancelled (neither its address nor an ancestor is in
+    `_cancelled_task_ids`) and waits for a mailbox that still exists is in the ready queue as soon
+    as the mailbox is complete; and while it is not in the ready queue it is the registered waiter
+    (`dest_addr`) of that - incomplete - mailbox, so the next result wakes it. -/
+theorem C07_L_no_lost_wakeup (tbl : Table) (w0 : Worker) (ops : List WOp)
+    (h1 : w0.tasks = []) (h2 : w0.ready = []) (h3 : w0.boxes = []) (h4 : w0.delayed = [])
+    (hok : Worker.okRun tbl w0 ops) (t : Task) (ht : t ∈ (ops.foldl (Worker.applyOp tbl) w0).tasks)
+    (hu : t.uncancelled (ops.foldl (Worker.applyOp tbl) w0)) (m : Nat) (b : Box)
+    (hd : t.desired = some m) (hb : boxGet (ops.foldl (Worker.applyOp tbl) w0).boxes m = some b) :
+    (b.ready = true → t.addr ∈ (ops.foldl (Worker.applyOp tbl) w0).ready)
+    ∧ (t.addr ∉ (ops.foldl (Worker.applyOp tbl) w0).ready → b.ready = false ∧ b.dest = some t.addr) := by
+  have h := run_winv tbl w0 ops (winv_init w0 h1 h2 h3 h4) hok
+  obtain ⟨a1, a2⟩ := no_lost_wakeup _ h t ht hu m b hd hb
+  refine ⟨a1, fun hn => ⟨?_, a2 hn⟩⟩
+  cases hr : b.ready with
+  | false => rfl
+  | true => exact absurd (a1 hr) hn
+
+/-- **`self._tasks[box.dest_addr]` in `_handle_result` cannot raise**: under the same assumptions
+    a RESULT addressed to this worker never kills the incoming thread. -/
+theorem C07_L_result_lookup_ok (tbl : Table) (w0 : Worker) (ops : List WOp)
+    (h1 : w0.tasks = []) (h2 : w0.ready = []) (h3 : w0.boxes = []) (h4 : w0.delayed = [])
+    (hok : Worker.okRun tbl w0 ops) (a : Addr) (v : Val) (by_ : Int)
+    (hr : (ops.foldl (Worker.applyOp tbl) w0).okRecv (.result a v by_))
+    (ha : a.w = (ops.foldl (Worker.applyOp tbl) w0).id) :
+    ((ops.foldl (Worker.applyOp tbl) w0).recv (.result a v by_)).inDead
+      = (ops.foldl (Worker.applyOp tbl) w0).inDead :=
+  result_lookup_ok _ (run_winv tbl w0 ops (winv_init w0 h1 h2 h3 h4) hok) a v by_ hr ha
+
+/-- non-vacuity: a root that submits a child and awaits it, the child is scheduled on the same
+    worker, returns locally and wakes the root, which returns - the run meets the assumptions and
+    ends with empty tables -/
+example :
+    let tbl : Table := [[.sub 1, .await 0, .ret], [.ret]]
+    let root : Task := { addr := ⟨-1, 0, 0⟩, comp := 0, crumbs := [], prog := 0, tag := [0] }
+    let child : Task := { addr := ⟨0, 0, 0⟩, comp := 0, crumbs := [⟨-1, 0, 0⟩], prog := 1, tag := [0, 0, 0] }
+    let ops : List WOp := [.recv (.submit root), .step, .recv (.submit child), .step, .step]
+    Worker.okRun tbl { id := 0 } ops
+    ∧ (ops.foldl (Worker.applyOp tbl) { id := 0 }).tasks = []
+    ∧ (ops.foldl (Worker.applyOp tbl) { id := 0 }).boxes = [] := by
+  refine ⟨okRunB_sound _ _ _ (by decide +kernel), by decide +kernel, by decide +kernel⟩
+
+/-- **Wake discipline on the flat network, for ALL schedules** (handlers atomic).  For every run
+    of the flat network - any table, workers, clients, assignments, delivery orders, cancellations,
+    error and shutdown paths - and every worker `w` of the reached state:
+    * the task its next loop iteration picks passes `_get_desired_result` or gets KeyError because
+      the awaited mailbox was dropped (cancelled future): `assert box.ready`,
+      `assert box.fresh_results is not None` and the ValueError of `owned_mailboxes.remove` are
+      unreachable;
+    * no wake-up is lost: a task that is not cancelled and waits for an existing mailbox is in the
+      ready queue when the mailbox is complete, and is the mailbox's registered waiter otherwise;
+    * a RESULT in flight to the worker never finds its mailbox complete, and handling it never
+      kills the incoming thread (`self._tasks[box.dest_addr]` cannot raise).
+    Both environment assumptions of the worker-level theorems are *proved* on the network:
+    arriving addresses are unknown to the worker (token uniqueness `GInv`; an address whose token is
+    gone never comes back, `PsiA`), and no result is deposited into a complete mailbox (for every
+    mailbox, results deposited + outstanding tokens of its slots ≤ `expected_num_results`, and a
+    token's slot index is below it).  Invariant `NInv2` (`Proofs/WakeNet.lean`, `BoxCount.lean`,
+    `WakeNet2.lean`) over `deliver / workerStep / clientSend`. -/
+theorem C07_G_wake_discipline (tbl : Table) (attached : Bool) (nw nc : Nat) (trs : List Tr)
+    (hwf : ∀ t ∈ trs, t.wf)
+    (w : Worker) (hw : w ∈ ((Net.initFlat tbl attached nw nc).exec trs).workers) :
+    (∀ t0 cls, (Worker.pick w.pickFuel { w with blocked := false }).task = some t0 →
+        desiredResult (Worker.pick w.pickFuel { w with blocked := false }).w t0 = .error cls → cls = eKey)
+    ∧ (∀ t ∈ w.tasks, t.uncancelled w → ∀ m b, t.desired = some m → boxGet w.boxes m = some b →
+        (b.ready = true → t.addr ∈ w.ready) ∧ (t.addr ∉ w.ready → b.dest = some t.addr))
+    ∧ (∀ src a v by_ rest,
+        chanGet ((Net.initFlat tbl attached nw nc).exec trs).chans (src, .wrk w.id) = .result a v by_ :: rest →
+        a.w = w.id →
+        (∀ bx, boxGet w.boxes a.m = some bx → bx.ready = false)
+        ∧ (w.recv (.result a v by_)).inDead = w.inDead) := by
+  have h2 := (NInv2.init tbl attached nw nc).exec trs hwf
+  have h := h2.base.winv w hw
+  refine ⟨fun t0 cls hp he => assert_unreachable w h t0 hp cls he,
+    fun t ht hu m b hd hb => no_lost_wakeup w h t ht hu m b hd hb, ?_⟩
+  intro src a v by_ rest hk haw
+  have h1 := Tok_head_worker a _ (src, .wrk w.id) _ rest hk w hw
+  simp only [tokMsg, if_true] at h1
+  have hnr : ∀ bx, boxGet w.boxes a.m = some bx → bx.ready = false :=
+    fun bx hbx => ready_false_of_lt bx (h2.not_ready w hw a haw (by omega) bx hbx)
+  exact ⟨hnr, result_lookup_ok w h a v by_ (fun _ => hnr) haw⟩
+
+/-- **Progress, the local half** (flat network, all schedules).  In every reachable quiescent
+    state, on every live worker: there is no delayed task; and every task that is not cancelled and
+    waits for a mailbox that still exists waits for an *incomplete* mailbox
+    (`num_results < expected_num_results`, with `num_results` + outstanding tokens of its slots
+    ≤ expected) and is that mailbox's registered waiter - nobody sleeps on a complete mailbox.
+    What is missing for `C07_G_progress`: the lower token bound (an incomplete mailbox of a
+    non-cancelled owner has an outstanding token), see the design note. -/
+theorem C07_G_quiescent_partial (tbl : Table) (attached : Bool) (nw nc : Nat) (trs : List Tr)
+    (hwf : ∀ t ∈ trs, t.wf) (hq : ((Net.initFlat tbl attached nw nc).exec trs).quiescent = true)
+    (w : Worker) (hw : w ∈ ((Net.initFlat tbl attached nw nc).exec trs).workers)
+    (hal : w.alive = true) (hmd : w.mainDead = false) :
+    w.delayed = [] ∧ w.ready = []
+    ∧ ∀ t ∈ w.tasks, t.uncancelled w → ∀ m b, t.desired = some m → boxGet w.boxes m = some b →
+        b.ready = false ∧ b.dest = some t.addr
+        ∧ b.num + sumTok w.id m b.expected ((Net.initFlat tbl attached nw nc).exec trs) ≤ b.expected := by
+  have hc := cinv_exec tbl attached nw nc trs hwf w hw
+  have h2 := (NInv2.init tbl attached nw nc).exec trs hwf
+  have hW := h2.base.winv w hw
+  simp only [Net.quiescent, Bool.and_eq_true, List.all_eq_true] at hq
+  have hidle := hq.2 w hw
+  simp only [hal, hmd, Bool.not_true, Bool.false_or, Bool.and_eq_true, List.isEmpty_iff] at hidle
+  refine ⟨hc.idle hidle.1 hidle.2, hidle.2, ?_⟩
+  intro t ht hu m b hd hb
+  obtain ⟨a1, a2⟩ := no_lost_wakeup w hW t ht hu m b hd hb
+  have hnr : t.addr ∉ w.ready := by rw [hidle.2]; simp
+  refine ⟨?_, a2 hnr, h2.cnt w hw m b hb⟩
+  cases hr : b.ready with
+  | false => rfl
+  | true => exact absurd (a1 hr) hnr
+
+/-- the assumption of the (former) partial version holds in every reachable state -/
+theorem C07_G_no_deposit_into_complete (tbl : Table) (attached : Bool) (nw nc : Nat) (trs : List Tr)
+    (hwf : ∀ t ∈ trs, t.wf) (t : Tr) : ((Net.initFlat tbl attached nw nc).exec trs).depositOK t :=
+  ((NInv2.init tbl attached nw nc).exec trs hwf).depositOK t
+
+/-- non-vacuity: a root that submits a child and awaits it on a one-worker network; the child returns
+    locally, the root resumes and returns to the server - the run meets the assumption, and the
+    server mailbox holds the root's result -/
+example :
+    let tbl : Table := [[], [.sub 0, .await 0]]
+    let run : List Tr := [
+      .step 0, .client 0 (some (.cSubmit 0 1)) false, .deliver (.client 0) .server [0] [] false,
+      .deliver .server (.wrk 0) [] [] false, .step 0,
+      .deliver (.wrk 0) .server [] [] false, .deliver (.wrk 0) .server [0] [] false,
+      .deliver .server (.wrk 0) [] [] false, .step 0, .step 0,
+      .deliver (.wrk 0) .server [] [] false, .deliver (.wrk 0) .server [] [] false,
+      .deliver (.wrk 0) .server [] [] false]
+    (Net.initFlat tbl false 1 1).depositsOK run
+    ∧ ((Net.initFlat tbl false 1 1).exec run).server.boxes.map (fun p => p.2.result.isSome) = [true] := by
+  refine ⟨depositsOKB_sound _ _ (by decide +kernel), by decide +kernel⟩
+
+/-- **Manager trees: a manager neither loses nor duplicates a task or a result.**  For every
+    message a `Manager` handles without reporting an error (`note = "ok"`: the observed assignment
+    is a legal outcome of `assign_tasks`, no system error), and every address `a`: the number of
+    tasks / results with address `a` in the messages it sends (down to employees and up to the
+    server together) equals the number in the message it received.  In particular
+    `send_up_or_schedule_tasks` hands each task either to exactly one employee or, in the
+    forwarded rest, to the server. -/
+theorem C07_T_manager_conserves (a : Addr) (g : Manager) (src : NodeId) (m : Msg) (asg : List Nat)
+    (hn : (g.handle src m asg).note = "ok") :
+    tokOut a (g.handle src m asg).direct + tokOut a (g.handle src m asg).queued = tokMsg a m :=
+  Manager.handle_conserves a g src m asg hn
+
+/-- **Manager trees: results are routed by id range.**  A RESULT coming from above is sent to the
+    employee responsible for `return_address.worker_id` (which `C07_R_routing` shows to be the
+    unique employee whose id range contains it) and to nobody else; a RESULT coming from below goes
+    down to the responsible employee (plus `UPDATE(-1)` upwards) when the destination is in this
+    manager's range, and is forwarded to the server unchanged otherwise. -/
+theorem C07_T_manager_routes_result (g : Manager) (x : Addr) (v : Val) (by_ : Int) (asg : List Nat) :
+    ((g.fromAbove (.result x v by_) asg).note = "ok" →
+      isMyWorker g.boss.lb g.boss.step g.boss.emps.length x.w = true ∧
+      ∃ ei, employeeFor g.boss.lb g.boss.step g.boss.emps.length x.w = some ei ∧
+        (g.fromAbove (.result x v by_) asg).queued = [((g.boss.emps.getD ei default).node, .result x v by_)])
+    ∧ (∀ ei0, (g.fromBelow ei0 (.result x v by_) asg).note = "ok" →
+      (isMyWorker g.boss.lb g.boss.step g.boss.emps.length x.w = false →
+        (g.fromBelow ei0 (.result x v by_) asg).queued = [(.server, .result x v by_)])
+      ∧ (isMyWorker g.boss.lb g.boss.step g.boss.emps.length x.w = true →
+        ∃ ei, employeeFor g.boss.lb g.boss.step g.boss.emps.length x.w = some ei ∧
+          (g.fromBelow ei0 (.result x v by_) asg).queued =
+            [((g.boss.emps.getD ei default).node, .result x v by_), (.server, .update (-1))])) := by
+  constructor
+  · intro hn
+    simp only [Manager.fromAbove] at hn ⊢
+    split
+    · rename_i hh; rw [if_pos hh] at hn; simp [Manager.systemError] at hn
+    · rename_i hh
+      rw [if_neg hh] at hn
+      refine ⟨by simpa using hh, ?_⟩
+      split
+      · rename_i h2; rw [h2] at hn; simp [Manager.systemError] at hn
+      · rename_i ei h2; exact ⟨ei, h2, rfl⟩
+  · intro ei0 hn
+    simp only [Manager.fromBelow] at hn ⊢
+    split
+    · rename_i hh; rw [hh] at hn; simp [Manager.systemError] at hn
+    · rename_i b' hh
+      rw [hh] at hn
+      obtain ⟨l1, l2, l3, hnode⟩ := completed_shape g.boss b' by_ hh
+      dsimp only at hn ⊢
+      rw [l1, l2, l3] at hn ⊢
+      refine ⟨fun hf => by simp [hf], fun ht => ?_⟩
+      rw [if_pos ht] at hn ⊢
+      split
+      · rename_i h2; rw [h2] at hn; simp [Manager.systemError] at hn
+      · rename_i ei h2
+        refine ⟨ei, h2, ?_⟩
+        simp only [hnode]
+
+/-- non-vacuity: a manager over two idle workers receives three tasks from below, schedules two
+    and sends the third up -/
+example :
+    let es : List Emp := [{ id := 0, total := 1, idle := 1 }, { id := 1, total := 1, idle := 1 }]
+    let b : Boss := { lb := 0, step := 1, numIdle := 2, total := 2, emps := es }
+    let g : Manager := { boss := b, idx := 0, lastSent := 2 }
+    let t : Nat → Task := fun i => { addr := ⟨0, 0, i⟩, comp := 0, crumbs := [], prog := 0, tag := [i] }
+    (g.handle (.wrk 0) (.batch [t 0, t 1, t 2]) [0, 1]).note = "ok"
+    ∧ ((g.handle (.wrk 0) (.batch [t 0, t 1, t 2]) [0, 1]).queued.map (·.1))
+        = [.server, .wrk 0, .wrk 1, .server, .server] := by
+  refine ⟨by decide, by decide⟩
 
 /-- **Line-level race (finding).** In the source-line model of `_process_await` ∥
     `_handle_result` the schedule in which the incoming thread handles the result of `f0`
